@@ -263,6 +263,13 @@ class HLog:
                 return k + 1
         return k
 
+    def is_integer(self):
+        if tb(_is_pow2(self.x)):
+            return True
+        self.w.havoc_used = True
+        import z3
+        return core.SymBool(z3.Bool("havoc_log_isint_%d" % self.w.fresh()))
+
     def __getattr__(self, n):
         raise Unsupported("float op %s on log2(sym)" % n)
 
